@@ -84,13 +84,19 @@ def freshSuffix (idx : List (String × Nat)) (name : String) : Nat → Nat → S
 def freshName (idx : List (String × Nat)) (name : String) : String :=
   if (idxLookup name idx).isSome then freshSuffix idx name (idx.length + 1) 1 else name
 
+/-- `s.SameSequence(sequence)` on the row the index points to -/
+def sameSeqOpt (found : Option Row) (s : Seq) : Bool :=
+  match found with
+  | some r => r.seq == s
+  | none => false
+
 /-- `AddSequenceChar` of `seqbag` and of `align` (the latter checks the length *after* renaming).
 Returns the new state and `true` when an error is returned. -/
 def addSeqAs (asAlign : Bool) (b : Bag) (name : String) (s : Seq) : Bag × Bool :=
   let found := getByName b name
   let ok := (idxLookup name b.index).isSome
   if ok && b.policy == IGNORE_NAME then (b, false)
-  else if ok && b.policy == IGNORE_SEQUENCE && (match found with | some r => r.seq == s | none => false) then (b, false)
+  else if ok && b.policy == IGNORE_SEQUENCE && sameSeqOpt found s then (b, false)
   else
     let nm := freshName b.index name
     if asAlign && b.length != -1 && b.length != (s.length : Int) then (b, true)
